@@ -628,7 +628,7 @@ func c09Guards(c *Ctx, r *RuleResult, m *walkerModel, written map[annot][]fieldS
 		}
 	}
 	// the type in scope of an inline fragment: Types[it.TypeCondition] is used whenever TypeCondition != ""
-	fn := m.byName["walkSelection"]
+	fn := m.host("walkSelection", "inlineFragment")
 	found := false
 	allInstrs(fn, func(in ssa.Instruction) {
 		l, ok := schemaMapLookup(in, "Types")
@@ -833,7 +833,7 @@ func c09Provenance(c *Ctx, r *RuleResult, m *walkerModel, written map[annot][]fi
 						bad = "the result of " + calleeName(x)
 						return
 					}
-					if !loadOfField(x.Call.Args[0], "FieldDefinition", "Arguments") && !loadOfField(x.Call.Args[0], "DirectiveDefinition", "Arguments") {
+					if !argumentListOfDefinition(p, m, x.Call.Args[0], 0) {
 						bad = "a search in something other than the definition's argument list"
 						return
 					}
@@ -961,6 +961,26 @@ func walkCoverage(c *Ctx, r *RuleResult, m *walkerModel) {
 			if ok {
 				sites = append(sites, ci)
 			}
+		}
+		if len(sites) == 0 && ch.viaElem {
+			// the list handed whole to a helper that walks every element
+			allInstrs(fn, func(in ssa.Instruction) {
+				ci, ok := in.(ssa.CallInstruction)
+				if !ok {
+					return
+				}
+				h := ci.Common().StaticCallee()
+				if h == nil || h == callee || h.Signature.Recv() == nil {
+					return
+				}
+				j, ok := listWalker(h, callee, ch.argIdx)
+				if !ok || j < 0 || j >= len(ci.Common().Args) {
+					return
+				}
+				if loadOfField(ci.Common().Args[j], ch.node[0], ch.node[1]) {
+					sites = append(sites, ci)
+				}
+			})
 		}
 		key := fmt.Sprintf("%s.%s -> %s in %s", ch.node[0], ch.node[1], ch.callee, ch.fn)
 		if len(sites) == 0 {
@@ -1881,4 +1901,101 @@ func walkerWrites(m *walkerModel) map[annot][]fieldStoreSite {
 		})
 	}
 	return written
+}
+
+// argumentListOfDefinition: v is <field or directive definition>.Arguments — read in place, or received (by value or by
+// pointer) as a parameter of a walker helper every call site of which passes that list (or nil when the definition is
+// unknown).
+func argumentListOfDefinition(p *Program, m *walkerModel, v ssa.Value, depth int) bool {
+	if depth > 3 {
+		return false
+	}
+	if loadOfField(v, "FieldDefinition", "Arguments") || loadOfField(v, "DirectiveDefinition", "Arguments") {
+		return true
+	}
+	v = unspill(stripChange(v))
+	var prm *ssa.Parameter
+	switch x := v.(type) {
+	case *ssa.Parameter:
+		prm = x
+	case *ssa.UnOp:
+		if x.Op == token.MUL {
+			prm, _ = x.X.(*ssa.Parameter)
+		}
+	}
+	if prm == nil {
+		return false
+	}
+	fn := prm.Parent()
+	idx := paramIndex(fn, prm)
+	calls := callsTo(m.fns, fn)
+	if idx < 0 || len(calls) == 0 {
+		return false
+	}
+	var okArg func(a ssa.Value, d int) bool
+	okArg = func(a ssa.Value, d int) bool {
+		if d > 4 {
+			return false
+		}
+		a = unspill(stripChange(a))
+		if isNilConst(a) {
+			return true
+		}
+		switch y := a.(type) {
+		case *ssa.FieldAddr:
+			n, f, _, _ := fieldOf(y)
+			return n != nil && f == "Arguments" && (n.Obj().Name() == "FieldDefinition" || n.Obj().Name() == "DirectiveDefinition")
+		case *ssa.Phi:
+			for _, e := range y.Edges {
+				if !okArg(e, d+1) {
+					return false
+				}
+			}
+			return true
+		}
+		return argumentListOfDefinition(p, m, a, depth+1)
+	}
+	for _, ci := range calls {
+		if idx >= len(ci.Common().Args) || !okArg(ci.Common().Args[idx], 0) {
+			return false
+		}
+	}
+	return true
+}
+
+// rangeElemOfParam: v is an element of a slice parameter of its function, read inside a range over it.
+func rangeElemOfParam(v ssa.Value) *ssa.Parameter {
+	v = unspill(stripChange(v))
+	u, ok := v.(*ssa.UnOp)
+	if !ok || u.Op != token.MUL {
+		return nil
+	}
+	ia, ok := u.X.(*ssa.IndexAddr)
+	if !ok {
+		return nil
+	}
+	prm, _ := stripChange(ia.X).(*ssa.Parameter)
+	return prm
+}
+
+// listWalker: h ranges over one of its slice parameters and hands every element to callee (argument argIdx), with no
+// way round the call inside the loop; returns the index of that parameter.
+func listWalker(h, callee *ssa.Function, argIdx int) (int, bool) {
+	if h == nil || callee == nil || h == callee {
+		return -1, false
+	}
+	for _, ci := range callsTo([]*ssa.Function{h}, callee) {
+		if argIdx >= len(ci.Common().Args) {
+			continue
+		}
+		prm := rangeElemOfParam(ci.Common().Args[argIdx])
+		if prm == nil {
+			continue
+		}
+		if canSkip(ci, nil) {
+			continue
+		}
+		return paramIndex(h, prm), true
+	}
+	return -1, false
 }
